@@ -276,6 +276,7 @@ type workerOut struct {
 	NOutSets    int              `json:"output_multisets"`
 	NInSets     int              `json:"input_multisets"`
 	NInSetsBase int              `json:"input_multisets_baseline"`
+	Incomplete  bool             `json:"incomplete"`
 }
 
 func wraps(m *mset) bool { return !m.Sum.IsInt64() }
@@ -367,6 +368,12 @@ func runEnum(r *evid.Run, scr string) workerOut {
 				feeIdx = -1
 			}
 			for oi := range outSets {
+				if oi%256 == 0 && r.Expired() {
+					mu.Lock()
+					res.Incomplete = true
+					mu.Unlock()
+					break
+				}
 				om := &outSets[oi]
 				outs := f.outputs(t.T, om.Vals)
 				tx := f.mkTx(t.T, outs, nil, h)
@@ -735,7 +742,7 @@ func main() {
 		"distinct_nontrivial": len(x.Classes),
 		"rule": "every non-coinbase transaction type x heights x all output multisets over the 15-value alphabet (per-output check) x all input multisets over the 12-value alphabet (fee check on those that passed): accepted => no negative output and exact sum(outputs) <= exact sum(inputs) and GetTxFee exact; plus signed TransferAsset vectors on a light node through CheckTransactionSanity/Context and the pool. " +
 			"non-trivial = distinct (height, output count, per-output verdict, error) classes",
-		"exhaustive":                     true,
+		"exhaustive":                     !x.Incomplete,
 		"fee_evaluations":                x.Evals,
 		"output_checks":                  x.OutChecks,
 		"accepted":                       x.Accepted,
